@@ -293,7 +293,7 @@ def run_real(fmt: int, descs):
             continue
         lit = cmsg(m)             # before the call: what the encoder is given
         out.append((d, m, call(enc, fmt, m), lit))
-    return out, enc.sequence_counter
+    return out, getattr(enc, "sequence_counter", -1)      # (-1: the encoder no longer has this attribute - a disagreement, not a crash)
 
 
 # ------------------------------------------------------------------ Gallina literals
@@ -463,9 +463,9 @@ def _direct_encodable(m, d) -> bool:
         return False
 
 
-def _decode_packets(fmt: int, pkts):
+def _decode_packets(fmt: int, pkts, dec=None):
     from nmea2000.decoder import NMEA2000Decoder
-    dec = NMEA2000Decoder()
+    dec = dec or NMEA2000Decoder()
     got = []
     for p in pkts:
         if fmt == 0:
@@ -486,6 +486,7 @@ def oracle(fmt: int, descs):
     from nmea2000.decoder import NMEA2000Decoder
     from nmea2000.encoder import NMEA2000Encoder
     dec, enc = NMEA2000Decoder(), NMEA2000Encoder()
+    ldec = NMEA2000Decoder()      # the receiving side of the link: ONE decoder that sees every packet of the sequence
     for i, desc in enumerate(descs):
         m = build(desc, dec)
         if m is None:
@@ -528,6 +529,18 @@ def oracle(fmt: int, descs):
         why = _same_fields(orig, b, d)
         if why:
             return i, "fields", f"{FMT_NAME[fmt]}: call {i}: PGN {m.PGN} {m.id} payload {desc['payload']}: {why} (packets {shown})"
+        # the same packets into the long-lived decoder that has seen all earlier packets of this sequence
+        try:
+            lgot = _decode_packets(fmt, pk, ldec)
+        except Exception as e:  # noqa: BLE001
+            return i, "long-lived-decoder", (f"{FMT_NAME[fmt]}: call {i}: the packets of PGN {m.PGN} {m.id} decode on a new decoder but "
+                                             f"make the decoder that received the {i} earlier messages raise {e!r}")
+        if len(lgot) != 1 or (lgot[0].PGN, lgot[0].id, lgot[0].source, lgot[0].destination, lgot[0].priority) != exp \
+                or _same_fields(orig, lgot[0], d):
+            return i, "long-lived-decoder", (f"{FMT_NAME[fmt]}: call {i}: PGN {m.PGN} {m.id} from source {desc['src']}: a new decoder "
+                                             f"returns the message, the decoder that received the {i} earlier messages of the sequence "
+                                             f"returns {len(lgot)} message(s)" + ("" if len(lgot) != 1 else " with other content")
+                                             + f" (packets {shown})")
     return None
 
 
@@ -557,6 +570,21 @@ def search(ctx):
                 cands.append((int(c["fmt"]), c["history"]))
     for k in range(ctx.n(60, 600)):
         cands.append((k % 4, gen_history(rng, rng.randint(5, 30), wild=False)))
+    # one message kind many times in a row through one encoder (a device's periodic message): 20 repeats of a fast-packet
+    # message, same source; and the same with seven other sources in between (counter wrap-around seen by one receiver)
+    for k in range(ctx.n(8, 40)):
+        src_ = Source(rng, False)
+        d0 = src_.valid(True)
+        if d0 is None:
+            continue
+        reps = [dict(d0) for _ in range(20)]
+        cands.append((k % 3, reps))
+        mixed = []
+        for j in range(20):
+            x = dict(d0)
+            x["src"] = (d0["src"] + (j % 8)) % 252
+            mixed.append(x)
+        cands.append(((k + 1) % 3, mixed))
     for fmt, descs in cands:
         if not descs:
             continue
